@@ -185,12 +185,11 @@ def mpc_pow_int (fallback : Mpc → Int → Int → Rnd → Except Err Mpc)
     let v ← mpf_pow_int a n prec rnd
     pure (v, fzero)
   else if a = fzero then do
-    let v ← mpf_pow_int b n prec rnd
     let m := n % 4
-    if m = 0 then pure (v, fzero)
-    else if m = 1 then pure (fzero, v)
-    else if m = 2 then pure (mpf_neg v, fzero)
-    else pure (fzero, mpf_neg v)
+    let v ← if m ≥ 2 then (do let w ← mpf_pow_int b n prec (negativeRnd rnd); pure (mpf_neg w))
+            else mpf_pow_int b n prec rnd
+    if m = 0 ∨ m = 2 then pure (v, fzero)
+    else pure (fzero, v)
   else if n = 0 then .ok mpc_one
   else if n = 1 then .ok (mpc_pos z prec rnd)
   else if n = 2 then .ok (mpc_square z prec rnd)
